@@ -648,6 +648,15 @@ def divmod_(a, b):
     return divmod(a, b)
 
 
+def id_(x):
+    """id(obj) of a symbolic object reference: its address term (references of all heap classes share one
+    integer address space, so this is injective on live objects - all that CPython guarantees); the builtin
+    otherwise.  Additive: the repo calls id() only in parallel/ and visual/."""
+    if _b.isinstance(x, ObjProxy):
+        return mk_num(x._ref)
+    return id(x)
+
+
 def is_(a, b):
     return same(a, b)
 
@@ -714,6 +723,6 @@ SHIMS = {
     "int": int_, "float": float_, "bool": bool_, "str": str_, "list": list_, "dict": dict_, "set": set_,
     "tuple": tuple_, "len": len_, "abs": abs_, "min": min_, "max": max_, "sum": sum_, "any": any_,
     "all": all_, "round": round_, "range": range_, "sorted": sorted_, "enumerate": enumerate_,
-    "hash": hash_, "divmod": divmod_, "bin": bin_,
+    "hash": hash_, "divmod": divmod_, "bin": bin_, "id": id_,
     "__pyvc_is": is_, "__pyvc_is_not": is_not_, "__pyvc_fstr": fstr_,
 }
